@@ -791,6 +791,60 @@ def ops_stream(ctx, reps, report=True):
                 ctx.disagree(dict(r['desc'], what=line), want, ans)
 
 
+def ops_matrix_stream(ctx, shapes):
+    """exhaustive class-level oracle on tiny spaces: matrix(op.adjoint) == matrix(op)^T,
+    every kind x method x pad mode x shape, anisotropic cell sides, real dtype, pad_const 0"""
+    import odl
+    sides_all = (1.0, 0.5, 2.0)
+
+    def unit_images(op, n_comp, shape):
+        cols = []
+        for comp in range(n_comp):
+            for idx in np.ndindex(*shape):
+                arrs = [np.zeros(shape) for _ in range(n_comp)]
+                arrs[comp][idx] = 1.0
+                st, R = apply_op(op, arrs, False, None)
+                if st != 'ok':
+                    return st, None
+                cols.append([v for a in R for v in a.flat()])
+        return 'ok', cols
+    for shape in shapes:
+        nd = len(shape)
+        sides = sides_all[:nd]
+        space = odl.uniform_discr([0] * nd, [s * n for s, n in zip(sides, shape)], shape)
+        for kind, p in itertools.product(KINDS, PADS):
+            for m in (METHODS if kind != 'lap' else ['forward']):
+                for axis in (range(nd) if kind == 'pd' else [None]):
+                    if ref_op_outcome(kind, m, p, shape, axis) != 'ok':
+                        continue
+                    key = '{} method={} pad_mode={} shape={} dtype=float pad_const=0{}'.format(
+                        {'pd': 'PartialDerivative', 'grad': 'Gradient', 'div': 'Divergence',
+                         'lap': 'Laplacian'}[kind], m if kind != 'lap' else '-', p, shape,
+                        '' if axis is None else ' axis={}'.format(axis))
+                    desc = dict(kind2='opmat', kind=kind, method=m, pad=p, shape=str(shape),
+                                axis=axis)
+                    try:
+                        op = build_op(kind, space, m, p, 0, axis)
+                        st1, A = unit_images(op, nd if kind == 'div' else 1, shape)
+                        st2, B = unit_images(op.adjoint, nd if kind == 'grad' else 1, shape)
+                    except Exception as e:  # noqa
+                        ctx.violation(key, 'raised {!r}'.format(e), desc)
+                        continue
+                    ctx.case(('opmat', kind, m, p, shape, axis))
+                    ctx.hit('opmat/' + kind)
+                    if st1 != 'ok' or st2 != 'ok':
+                        ctx.violation(key, 'unit vector evaluation failed: {} {}'.format(st1, st2),
+                                      desc)
+                        continue
+                    bad = [(i, j) for j in range(len(A)) for i in range(len(B))
+                           if A[j][i] != B[i][j]]
+                    if bad:
+                        i, j = bad[0]
+                        ctx.violation(key, 'matrix(op)[{i}][{j}] = {} but matrix(op.adjoint)[{j}][{i}]'
+                                      ' = {} (flat C-order indices; adjoint is not the transpose)'
+                                      .format(cs(A[j][i]), cs(B[i][j]), i=i, j=j), desc)
+
+
 def regenerate(ctx):
     changed = extract_fd.regenerate()
     return [('extract(diff_ops.py -> Gen/FiniteDiff.lean)', True,
@@ -804,6 +858,9 @@ def run(ctx):
     fd_vector_stream(ctx, [2, 3, 4, 5, 6, 8, 11], 1 if ctx.quick else 4)
     fd_general_stream(ctx, [2, 3, 5, 7] if ctx.quick else [2, 3, 4, 5, 6, 7, 10])
     ops_stream(ctx, 1 if ctx.quick else 6)
+    ops_matrix_stream(ctx, [(2,), (3,), (2, 3)] if ctx.quick else
+                      [(2,), (3,), (4,), (5,), (2, 2), (2, 3), (3, 2), (3, 4), (2, 2, 2),
+                       (2, 3, 2), (3, 2, 3)])
     want = {'fd/{}/{}/n={}'.format(m, p, nclass(n)) for m in METHODS for p in PADS
             for n in range(2, 10) if n >= REF_NMIN.get(p, 2)}
     unhit = sorted(want - set(ctx.branches))
@@ -816,10 +873,52 @@ def search(ctx, broken):
     fd_matrix_stream(ctx, list(range(1, 14)), EXACT_DXC)
     fd_vector_stream(ctx, list(range(2, 14)), 6)
     ops_stream(ctx, 8)
+    ops_matrix_stream(ctx, [(2,), (3,), (4,), (6,), (2, 2), (3, 3), (2, 4), (2, 2, 3)])
+
+
+def _num(sv):
+    z = complex(sv)
+    return z if z.imag != 0 else z.real
 
 
 def replay(ctx, case):
+    """Re-run one recorded failing case on the real code with the oracle."""
+    import ast as _ast
     kind = case.get('kind')
+    if case.get('kind2') == 'op':
+        pl = dict(case)
+        pl['shape'] = tuple(_ast.literal_eval(case['shape']))
+        pl['sides'] = tuple(_ast.literal_eval(case['sides']))
+        pl['c'] = _num(case['c'])
+        rec = run_op_case(pl)
+        return '; '.join(rec['problems'])[:800] if rec and rec['problems'] else None
+    if case.get('kind2') == 'opmat':
+        sub = core.Ctx(ctx.pid, ctx.tier, ctx.seed)
+        ops_matrix_stream(sub, [tuple(_ast.literal_eval(case['shape']))])
+        hits = [v for v in sub.violations if v['replay'].get('kind') == case['kind'] and
+                v['replay'].get('method') == case['method'] and v['replay'].get('pad') == case['pad']
+                and v['replay'].get('axis') == case['axis']]
+        return hits[0]['what'] if hits else None
+    if kind == 'tables':
+        sub = core.Ctx(ctx.pid, ctx.tier, ctx.seed)
+        tables_stream(sub)
+        return sub.violations[0]['what'] if sub.violations else None
+    if kind == 'vec':
+        m, p, n, dx = case['method'], case['pad'], case['n'], case['dx']
+        f = np.array([_num(v) for v in case['f']], dtype=complex if case['cplx'] else float)
+        c = _num(case['c'])
+        try:
+            st, r = impl_fd(f, m, p, c, dx)
+        except ValueError:
+            return 'non-finite output'
+        want = ref_outcome(m, p, n)
+        if want == 'ok':
+            if st != 'ok':
+                return st
+            exp = ref_apply(exact(f), m, p, cval(c) if p == 'constant' else Z, dx)
+            return None if r == exp else 'out = {} but the reference stencil gives {}'.format(
+                cl(r), cl(exp))
+        return 'result returned where an error was expected' if st == 'ok' else None
     if kind == 'mat':
         m, p, n, dx, c = case['method'], case['pad'], case['n'], case['dx'], case['c']
         try:
